@@ -4,6 +4,7 @@ CONSTANTS
   PlanId = 1
   EmitSched = FALSE
   MaxAppRollback = 0
+  MaxTamper = 0
   Weak_EndHeightBeforeSaveBlock = FALSE
   Weak_SaveStateBeforeAppCommit = FALSE
   Weak_NoABCIResponsesSaved = FALSE
@@ -12,6 +13,8 @@ CONSTANTS
   Weak_CommitWithoutMempoolLock = TRUE
   Weak_NoFlushBeforeCommit = FALSE
   Weak_NoEndHeightRepair = FALSE
+  Weak_HandshakeAcceptsAppAhead = FALSE
+  Weak_EmptyStoreAcceptsAppAhead = FALSE
 INIT Init
 NEXT Next
 INVARIANTS MempoolBracket
